@@ -186,7 +186,8 @@ def _mk_keyframe(inp):
     conv = {"int": lambda v: v, "str": lambda v: None if v is None else "s%d" % v,
             "float": lambda v: np.nan if v is None else v * 0.5, "cat": lambda v: "c%d" % v}[kind]
     col = [conv(k) for k in ks]
-    df = pd.DataFrame({"k": col, "k2": [(k or 0) % 2 for k in ks], "v": range(len(ks))})
+    df = pd.DataFrame({"k": col, "k2": [(k or 0) % 2 for k in ks], "k3": [(7 * i + 3) % 5 for i in range(len(ks))],
+                       "v": range(len(ks))})
     if kind == "cat":
         df["k"] = df["k"].astype("category")
     # (object-dtype strings are not generated: dask's meta inference for `min` on an object column fails in this
@@ -275,18 +276,23 @@ def case_sort_api(ctx, inp):
     try:
         with dask.config.set(scheduler="sync"):
             if op == "sort_values":
-                r = d.sort_values("k", ascending=inp["ascending"], na_position=inp["na_position"],
+                by = inp.get("by") or ["k"]
+                r = d.sort_values(by if len(by) > 1 else by[0], ascending=inp["ascending"], na_position=inp["na_position"],
                                   npartitions=inp.get("n_out") or None, **kw)
-                parts = U.partitions(r)
+                parts = U.partitions(r)      # the REAL partitions (a bare compute() may re-sort everything)
                 got = pd.concat(parts) if parts else df.iloc[:0]
-                exp = df.sort_values("k", ascending=inp["ascending"], na_position=inp["na_position"], kind="stable")
-                keys_got = list(got.k.astype(object).where(got.k.notna(), None))
-                keys_exp = list(exp.k.astype(object).where(exp.k.notna(), None))
+                exp = df.sort_values(by, ascending=inp["ascending"], na_position=inp["na_position"], kind="stable")
+
+                def keyrows(f):
+                    return [tuple(None if (isinstance(x, float) and x != x) else x for x in t)
+                            for t in f[by].astype(object).where(f[by].notna(), None).itertuples(index=False)]
+                keys_got, keys_exp = keyrows(got), keyrows(exp)
                 if keys_got != keys_exp:
                     ctx.fail("sort_values is not globally ordered like pandas", observed=keys_got[:30], expected=keys_exp[:30])
                 if sorted(got.v) != list(range(len(df))):
                     ctx.fail("sort_values does not keep exactly the input rows", observed=sorted(got.v)[:30])
-                ctx.branch("sort_values-" + ("asc" if inp["ascending"] else "desc") + "-" + inp["na_position"])
+                ctx.branch("sort_values-" + ("asc" if inp["ascending"] else "desc") + "-" + inp["na_position"]
+                           + ("-multikey" if len(by) > 1 else "") + ("-presorted" if inp.get("presorted") else ""))
             else:
                 sub = df[df.k.notna()] if inp["kind"] in ("float", "str") else df
                 d2 = dd.from_pandas(sub, npartitions=inp["n_in"], sort=False) if len(sub) else None
@@ -308,7 +314,13 @@ def case_sort_api(ctx, inp):
                     why = U.truthful(divs, parts)
                     if why:
                         ctx.fail("set_index result not truthful: " + why, observed=[divs, [list(p.index) for p in parts]])
-                ctx.branch("set_index-" + inp["kind"])
+                # .loc on the published divisions must find every row of a key
+                if divs[0] is not None and len(sub):
+                    probe = sub.k.iloc[len(sub) // 2]
+                    hit = r.loc[probe].compute() if True else None
+                    if len(hit) != int((sub.k == probe).sum()):
+                        ctx.fail("set_index(...).loc[key] misses rows of that key", observed=[probe, len(hit)], expected=int((sub.k == probe).sum()))
+                ctx.branch("set_index-" + inp["kind"] + ("-presorted" if inp.get("presorted") else ""))
     except NotImplementedError as e:
         if inp["kind"] == "str" and any(k is None for k in inp["keys"]) and "nulls" in str(e):
             ctx.branch("sort-rejected-null-strings")    # documented rejection, not a wrong result
@@ -423,6 +435,22 @@ def generate(ctx):
                            "op": rng.choice(["sort_values", "set_index"]), "ascending": rng.random() < 0.6,
                            "na_position": rng.choice(["last", "first"]), "n_out": rng.choice([None, None, rng.randint(1, 6)]),
                            "method": rng.choice([None, "tasks", "disk"])}
+    # frames ALREADY ordered by the key (no shuffle needed unless equal keys straddle a partition boundary or NaN keys
+    # sit inside a partition): the "presorted" shortcut of _calculate_divisions
+    for _ in range(ctx.n(60, 600)):
+        kind = rng.choice(["int", "int", "float"])
+        n = rng.randint(2, 30)
+        keys = sorted(rng.randint(0, rng.choice([3, 6, 15])) for _ in range(n))
+        asc = rng.random() < 0.75
+        if not asc:
+            keys.reverse()
+        if kind == "float" and rng.random() < 0.6:
+            for _k in range(rng.randint(1, 3)):
+                keys[rng.randrange(n)] = None
+        yield "sort_api", {"keys": keys, "kind": kind, "n_in": rng.randint(2, 6), "presorted": True,
+                           "op": rng.choice(["sort_values", "sort_values", "set_index"]), "ascending": asc,
+                           "na_position": rng.choice(["last", "first"]), "n_out": None,
+                           "by": rng.choice([["k"], ["k", "k3"]]), "method": rng.choice([None, "tasks"])}
     for _ in range(ctx.n(70, 700)):
         kind = rng.choice(["int", "str", "float", "cat"])
         n = rng.randint(1, 40)
